@@ -160,15 +160,17 @@ func sameBytes(got LValue, want []byte) bool {
 	return eq
 }
 
-//verif:harness prop=C15 tier=quick qparams=bits:16 tparams=bits:16 tmaxpaths=120000 bounds="quick: 35 directives over d i o x X c s with flags, width and precision; thorough: % + one of 12 flag sets + width {none,1,6,12} + precision {none,.0,.3} + one of d i o x X c s; numeric argument +-m for every m of 16 bits, also with a fraction of .5 added (truncation toward zero); %c argument 0..255; %s argument <= 3 symbolic bytes"
+//verif:harness prop=C15 tier=quick qparams=bits:16 tparams=bits:16 tmaxpaths=120000 bounds="quick: 35 directives over d i o x X c s with flags, width and precision; thorough: the same plus % + one of 12 flag sets + width {none,6,12} + precision {none,.0,.3} + d or x; numeric argument +-m for every m of 16 bits, also with a fraction of .5 added (truncation toward zero); %c argument 0..255; %s argument <= 3 symbolic bytes"
 func H_C15_format() {
 	L := newL(Options{}, BaseLibName, StringLibName)
 	var spec cSpec
-	if VTier() > 0 {
+	if VTier() > 0 && VChoice(2) == 1 {
+		// thorough: besides the curated directives below, the full product of flag sets, widths and precisions
+		// for one signed and one unsigned conversion
 		spec = fmtFlagSets[VChoice(len(fmtFlagSets))]
-		spec.width = []int{-1, 1, 6, 12}[VChoice(4)]
+		spec.width = []int{-1, 6, 12}[VChoice(3)]
 		spec.prec = []int{-1, 0, 3}[VChoice(3)]
-		spec.verb = "dioxXcs"[VChoice(7)]
+		spec.verb = "dx"[VChoice(2)]
 	} else {
 		spec = fmtQuick[VChoice(len(fmtQuick))]
 	}
